@@ -159,13 +159,14 @@ class NFA:
 
 
 class Lang:
-    def __init__(self, pattern, alphabet=PRINTABLE, anchored_start=True):
+    def __init__(self, pattern, alphabet=PRINTABLE, anchored_start=True, tree=None):
         self.pattern = pattern
-        try:
-            tree = sre_parse.parse(pattern)
-        except re.error as e:
-            raise AnalysisError('pattern does not parse: %s' % e)
-        self.groups = tree.state.groups - 1
+        if tree is None:
+            try:
+                tree = sre_parse.parse(pattern)
+            except re.error as e:
+                raise AnalysisError('pattern does not parse: %s' % e)
+        self.groups = tree.state.groups - 1 if hasattr(tree, 'state') else 0
         self.nfa = NFA(alphabet)
         self.start = self.nfa.new()
         self.accept = self.nfa.build(tree, self.start)
@@ -246,3 +247,22 @@ def inclusion(spec, impl):
                 seen[nxt] = ((a, b), ch)
                 q.append(nxt)
     return True, {'product_states': states, 'alphabet_classes': len(classes)}
+
+
+def split_at_group(pattern, group=1, alphabet=PRINTABLE):
+    """For a pattern whose top level is a concatenation containing capture group `group` as one item:
+    returns (Lang of what precedes the group, Lang of the group's own sub-pattern, Lang of what follows).
+    Raises Unsupported when the group is nested inside a repeat / branch (its text is then not a factor)."""
+    try:
+        tree = sre_parse.parse(pattern)
+    except re.error as e:
+        raise AnalysisError('pattern does not parse: %s' % e)
+    items = list(tree)
+    for i, (op, av) in enumerate(items):
+        if str(op) == 'SUBPATTERN' and av[0] == group:
+            pre, post = items[:i], items[i + 1:]
+            pre = [(o, a) for o, a in pre if not (str(o) == 'AT' and str(a) in ('AT_BEGINNING', 'AT_BEGINNING_STRING'))]
+            post = [(o, a) for o, a in post if not (str(o) == 'AT' and str(a) in ('AT_END', 'AT_END_STRING'))]
+            return (Lang(pattern + ' [before group %d]' % group, alphabet, tree=pre), Lang(pattern + ' [group %d]' % group, alphabet, tree=list(av[-1])),
+                    Lang(pattern + ' [after group %d]' % group, alphabet, tree=post))
+    raise Unsupported('capture group %d of %r is not a top-level factor of the pattern' % (group, pattern))
